@@ -94,7 +94,10 @@ class C18(Check):
                 else:    # a flow_mod naming the buffer; its match never matches harness frames (in_port 77)
                     msg = of.ofp_flow_mod(match=of.ofp_match(in_port=77), buffer_id=op["id"], actions=act, command=of.OFPFC_ADD)
                 st, rep, em = node.send(msg)
-                if st != "ok" or rep or len(em) > 1:
+                # a buffer id that is not stored is answered with BAD_REQUEST / BUFFER_EMPTY(7) or BUFFER_UNKNOWN(8) (that reply
+                # is C13's subject); for this property what counts is that no frame is emitted and nothing is freed
+                errs = [r for r in rep if isinstance(r, of.ofp_error) and r.type == of.OFPET_BAD_REQUEST and r.code in (7, 8)]
+                if st != "ok" or len(errs) != len(rep) or len(rep) > 1 or (rep and em) or len(em) > 1:
                     outs.append({"k": "unexpected", "status": st, "emitted": len(em), "replies": pins(rep)})
                 elif em: outs.append({"k": "emit", "fr": em[0][1].hex(), "port": em[0][0]})
                 else: outs.append({"k": "none"})
